@@ -65,7 +65,7 @@ func (x *X) runTasks(tasks [][]Op, preempts []simrt.Preempt, phasePrefix string)
 
 func init() {
 	Register(&Scenario{ID: "C08", Gen: genC08, Run: runC08,
-		Rule: "2-4 tasks, each 1-3 Parse/Validate/Collect operations with its own data, destination and options, on 1-3 schemas shared by all tasks; the baton scheduler preempts at simulator-chosen yield points (every instrumented function entry and loop head, " +
+		Rule: "2-4 tasks (family crowd: 36-46 tasks with one operation each, staggered so that all are inside the schema at once), each 1-3 Parse/Validate/Collect operations with its own data, destination and options, on 1-3 schemas shared by all tasks; the baton scheduler preempts at simulator-chosen yield points (every instrumented function entry and loop head, " +
 			"every pool call, callback and read) and hands pool objects from task to task; every operation must return what its task returns running alone (fresh pools, freshly built schemas) under the same visit orders, uncollected results must stay unchanged, Sanitize*AndCollect must return the messages it was handed; " +
 			"a share of the worlds runs in the -race build with the hand-offs hidden from the detector. Non-trivial iff >=1 preemption happened inside a Parse/Validate and >=1 pool object crossed tasks; distinct by (schemas, operations, interleaving signature, decision vectors)"})
 }
